@@ -189,7 +189,7 @@ class Ctx(Counters):
             "distinct_nontrivial": len(self.nontrivial),
             "rule": self.rule,
             "samples": self.samples[:10] if self.samples else ["(none recorded)"],
-            "class_histogram": dict(sorted(self.classes.items(), key=lambda kv: -kv[1])[:60]),
+            "class_histogram": dict(sorted(self.classes.items(), key=lambda kv: -kv[1])[:150]),
             "excluded_as_known_finding": self.excluded,
             "known_findings_hit": self.known_hits,
             "inconclusive": self.inconclusive[:20],
